@@ -320,6 +320,9 @@ pub struct GenKnobs {
     pub many_trees_pct: u64,
     pub mid_run_pct: u64,
     pub offcentre_pct: u64,
+    /// later rounds of big runs: chance of a large insertion (> 200 fresh ids) / of a deletion-heavy round
+    pub big_insert_pct: u64,
+    pub delete_heavy_pct: u64,
 }
 
 impl GenKnobs {
@@ -344,6 +347,8 @@ impl GenKnobs {
             many_trees_pct: 10,
             mid_run_pct: 10,
             offcentre_pct: 8,
+            big_insert_pct: 33,
+            delete_heavy_pct: 0,
         };
         match focus {
             "C02" | "C03" => {
@@ -373,7 +378,9 @@ impl GenKnobs {
                 k.min_items_first = 200;
                 k.mem_hint_pct = 85;
                 k.big_capacity_pct = 10;
-                k.max_rounds = 3;
+                k.max_rounds = 4;
+                k.big_insert_pct = 45;
+                k.delete_heavy_pct = 30;
                 k.max_indexes = 1;
                 k.accurate_only = true;
                 k.bad_call_pct = 0;
@@ -418,7 +425,15 @@ pub fn gen_history_with(seed: u64, focus: &str, thorough: bool, forced: Option<V
     let mut r = Rng::new(seed);
     // "any available_memory" is part of these properties' quantifier too: a share of their runs is shaped
     // like the memory-hint runs of C14 (more than 200 distinct pending ids in one pass, small hints)
-    if matches!(focus, "C01" | "C02" | "C13" | "C15") && r.chance(4, 100) {
+    if focus == "C13" && r.chance(10, 100) {
+        // large incremental insertions into many trees, no memory hint: every per-tree task writes a lot
+        k.min_items_first = 400;
+        k.mem_hint_pct = 0;
+        k.max_rounds = 3;
+        k.max_indexes = 1;
+        k.metric_change_pct = 0;
+        k.big_insert_pct = 100;
+    } else if matches!(focus, "C01" | "C02" | "C13" | "C15") && r.chance(4, 100) {
         k.min_items_first = 200;
         k.mem_hint_pct = 85;
         k.max_rounds = 3;
@@ -485,7 +500,7 @@ pub fn gen_history_with(seed: u64, focus: &str, thorough: bool, forced: Option<V
             ])
         };
         profiles.push(profile);
-        let usize_n = if big { 300 + r.below(if thorough { 1700 } else { 500 }) as usize } else if mid { 40 + r.below(120) as usize } else { 4 + r.below(60) as usize };
+        let usize_n = if big && focus == "C14" { 900 + r.below(if thorough { 1400 } else { 300 }) as usize } else if big { 300 + r.below(if thorough { 1700 } else { 500 }) as usize } else if mid { 40 + r.below(120) as usize } else { 4 + r.below(60) as usize };
         let uni: Vec<u32> = match r.below(10) {
             0..=5 => (0..usize_n as u32).collect(),
             6..=7 => {
@@ -519,17 +534,41 @@ pub fn gen_history_with(seed: u64, focus: &str, thorough: bool, forced: Option<V
         shadows.iter().map(|s| (s.live.clone(), s.metric)).collect();
 
     let mut steps = Vec::new();
-    let rounds = 1 + r.below(k.max_rounds as u64) as usize;
+    let mut rounds = 1 + r.below(k.max_rounds as u64) as usize;
+    // memory-hint check: 60 % of the runs follow a script of round kinds (0 = large first build,
+    // 1 = delete most items, 2 = large insertion) so that large insertions meet collapsed forests
+    let script: Option<Vec<u8>> = if focus == "C14" {
+        match r.below(10) {
+            0..=3 => None,
+            4..=6 => Some(vec![0, 1, 2]),
+            _ => Some(vec![0, 2, 1, 2]),
+        }
+    } else {
+        None
+    };
+    if let Some(sc) = &script {
+        rounds = sc.len();
+    }
     for round in 0..rounds {
         // which indexes get touched this round
         let mut builds_pending: Vec<usize> = Vec::new();
-        let n_ops = if round == 0 && k.min_items_first > 0 {
+        let mut delete_heavy = false;
+        let scripted = script.as_ref().map(|sc| sc[round]);
+        let n_ops = if scripted == Some(1) {
+            delete_heavy = true;
+            0
+        } else if scripted == Some(2) {
+            400 + r.below(400) as usize
+        } else if round == 0 && k.min_items_first > 0 {
             k.min_items_first + r.below(if thorough { 1500 } else { 400 }) as usize
         } else if big && round == 0 {
             200 + r.below(400) as usize
-        } else if big && k.min_items_first > 0 && r.chance(1, 3) {
+        } else if big && k.min_items_first > 0 && r.chance(k.big_insert_pct, 100) {
             // a large incremental insertion (more than one minimum batch)
             210 + r.below(300) as usize
+        } else if big && r.chance(k.delete_heavy_pct, 100) {
+            delete_heavy = true;
+            100 + r.below(300) as usize
         } else if big {
             r.below(150) as usize
         } else if mid {
@@ -540,11 +579,28 @@ pub fn gen_history_with(seed: u64, focus: &str, thorough: bool, forced: Option<V
         // op mix of the round (swarm): add-heavy, delete-heavy, balanced
         let mut mix: [u32; 3] = *r.pick(&[[8, 1, 1], [3, 5, 2], [5, 3, 2], [10, 0, 0], [1, 8, 1]]);
         // memory-hint runs: large rounds insert distinct fresh ids, so that one pass really sees > 200 pending ids
-        let fresh_ids = k.min_items_first > 0 && n_ops >= 200;
+        let fresh_ids = k.min_items_first > 0 && n_ops >= 200 && !delete_heavy;
         if fresh_ids {
             mix = [12, 1, 1];
         }
+        if delete_heavy {
+            mix = [0, 10, 1];
+        }
         let fresh_base = r.below(1 << 20) as usize;
+        let mut n_ops = n_ops;
+        if delete_heavy {
+            // delete 85-99 % of what index 0 holds: the forest collapses and frees most tree-node ids
+            let keep_pct = if scripted.is_some() { 1 + r.below(5) } else { 1 + r.below(15) };
+            let victims: Vec<u32> = shadows[0].live.iter().copied().filter(|_| !r.chance(keep_pct, 100)).collect();
+            for id in victims {
+                steps.push(Step::Del { ix: 0, id });
+                shadows[0].live.remove(&id);
+            }
+            if !builds_pending.contains(&0) {
+                builds_pending.push(0);
+            }
+            n_ops = r.below(10) as usize;
+        }
         for op_no in 0..n_ops {
             let ix = r.below(indexes.len() as u64) as usize;
             let sh = &mut shadows[ix];
@@ -571,7 +627,8 @@ pub fn gen_history_with(seed: u64, focus: &str, thorough: bool, forced: Option<V
                 sh.metric = to;
                 continue;
             }
-            if r.chance(1, 150) {
+            // a clear wipes the index: keep it rare enough that large rounds stay large
+            if r.chance(1, 150u64.max(n_ops as u64 * 8)) {
                 steps.push(Step::Clear { ix });
                 sh.live.clear();
                 continue;
@@ -659,7 +716,13 @@ pub fn gen_history_with(seed: u64, focus: &str, thorough: bool, forced: Option<V
                         _ => unreachable!(),
                     }
                 };
-                let mem = if r.chance(k.mem_hint_pct, 100) {
+                let mem = if scripted == Some(2) {
+                    Some(match r.below(3) {
+                        0 => 0,
+                        1 => 1 + r.below(4096) as usize,
+                        _ => 4096 * (1 + r.below(3) as usize),
+                    })
+                } else if r.chance(k.mem_hint_pct, 100) {
                     let item_bytes = 1 + 8 + 4 * dim;
                     Some(match r.below(6) {
                         0 => 0,
